@@ -11,7 +11,7 @@ other test is unconstrained.
 import ast
 
 from ..model import (walk, dotted, call_name, kwarg, unparse, short, UNKNOWN,
-                     root_name, AnalysisError, calls_in)
+                     root_name, AnalysisError, calls_in, stores_in_target)
 from ..cfg import cfg_of
 from ..flow import guards, const_compare
 from .. import idioms as I
@@ -1076,30 +1076,369 @@ def r11_4(prog, rep, rid='R11.4'):
 
 
 # ------------------------------------------------------------------------------
-# R11.5  short forms: '>>' before '>', '<<' before '<'; separator, orientation
-#        and key sets of the expanded directive
+# R11.5  short forms: ordered dispatch by substring containment (if/elif chain
+#        or loop over a constant operator table): every documented token has an
+#        entry, an entry whose token is contained in the token of another entry
+#        does not take precedence over it; separator, orientation and key sets
+#        of the expanded directive
 #
+# documented redirection tokens of the string short form (docstring of
+# expand_description / TaskDescription: 'src > tgt', '>>', 'tgt < src', '<<')
+DOC_TOKENS = ('>>', '>', '<<', '<')
+
+SPLITS     = {'split': 2, 'rsplit': 2, 'partition': 3, 'rpartition': 3}
+KEEP_PART  = {'strip', 'lstrip', 'rstrip', 'expandtabs'}
+
+
+def _local_single(f, name):
+    """the value of the only assignment to the plain name in f, or None"""
+    vals = [a.value for a in walk(f.node) if isinstance(a, ast.Assign) and any(
+        isinstance(t, ast.Name) and t.id == name for t in a.targets)]
+    other = [n for n in walk(f.node) if isinstance(n, ast.Name) and
+             n.id == name and isinstance(n.ctx, (ast.Store, ast.Del))]
+    if len(vals) == 1 and len(other) == 1:
+        return vals[0]
+    return None
+
+
+def cval(prog, f, e, env):
+    """value of a constant expression under `env` (names bound to constants:
+    the row of a table loop), or UNKNOWN"""
+    if isinstance(e, ast.Constant):
+        return e.value
+    if isinstance(e, ast.Name) and e.id in env:
+        return env[e.id]
+    if isinstance(e, (ast.Tuple, ast.List)):
+        vals = [cval(prog, f, x, env) for x in e.elts]
+        if any(v is UNKNOWN for v in vals):
+            return UNKNOWN
+        return tuple(vals) if isinstance(e, ast.Tuple) else vals
+    if isinstance(e, ast.Subscript):
+        b = cval(prog, f, e.value, env)
+        i = cval(prog, f, e.slice, env)
+        if b is UNKNOWN or i is UNKNOWN:
+            return UNKNOWN
+        try:
+            return b[i]
+        except Exception:
+            return UNKNOWN
+    if isinstance(e, ast.UnaryOp) and isinstance(e.op, ast.Not):
+        v = cval(prog, f, e.operand, env)
+        return UNKNOWN if v is UNKNOWN else (not v)
+    if isinstance(e, ast.BoolOp):
+        vals = [cval(prog, f, x, env) for x in e.values]
+        if any(v is UNKNOWN for v in vals):
+            return UNKNOWN
+        out = vals[0]
+        for v in vals[1:]:
+            out = (out and v) if isinstance(e.op, ast.And) else (out or v)
+        return out
+    if isinstance(e, ast.IfExp):
+        t = cval(prog, f, e.test, env)
+        if t is UNKNOWN:
+            return UNKNOWN
+        return cval(prog, f, e.body if t else e.orelse, env)
+    if isinstance(e, ast.UnaryOp) and isinstance(e.op, ast.USub):
+        v = cval(prog, f, e.operand, env)
+        return -v if isinstance(v, int) else UNKNOWN
+    if isinstance(e, ast.BinOp) and isinstance(e.op, (ast.Add, ast.Sub)):
+        l = cval(prog, f, e.left, env)
+        r = cval(prog, f, e.right, env)
+        if l is UNKNOWN or r is UNKNOWN:
+            return UNKNOWN
+        try:
+            return l + r if isinstance(e.op, ast.Add) else l - r
+        except Exception:
+            return UNKNOWN
+    if isinstance(e, ast.Compare) and len(e.ops) == 1:
+        l = cval(prog, f, e.left, env)
+        r = cval(prog, f, e.comparators[0], env)
+        if l is UNKNOWN or r is UNKNOWN:
+            return UNKNOWN
+        op = e.ops[0]
+        try:
+            if isinstance(op, ast.Eq):    return l == r
+            if isinstance(op, ast.NotEq): return l != r
+            if isinstance(op, ast.Is):    return l is r
+            if isinstance(op, ast.IsNot): return l is not r
+            if isinstance(op, ast.In):    return l in r
+            if isinstance(op, ast.NotIn): return l not in r
+        except Exception:
+            return UNKNOWN
+        return UNKNOWN
+    if isinstance(e, ast.Name):
+        v = _local_single(f, e.id)
+        if v is not None and not names_bound_in(f, v):
+            return cval(prog, f, v, {})
+    return prog.fold(f.module, e, f.cls)
+
+
+def names_bound_in(f, expr):
+    """does `expr` read a name which the function binds (parameter or local)?
+    such a name is not a module level constant"""
+    bound = set(f.params)
+    for n in walk(f.node):
+        if isinstance(n, ast.Name) and isinstance(n.ctx, (ast.Store, ast.Del)):
+            bound.add(n.id)
+    return any(isinstance(n, ast.Name) and n.id in bound for n in walk(expr))
+
+
+def table_rows(prog, f, it):
+    """the rows a `for` statement iterates over, if its iterable is a constant
+    table (module / class constant, literal, local name bound once to one;
+    reversed(T), enumerate(T), T.items() / .keys() / .values()); else None"""
+    if isinstance(it, ast.Call) and not it.keywords:
+        fn = dotted(it.func)
+        if fn in ('reversed', 'list', 'tuple', 'enumerate') and \
+                len(it.args) == 1:
+            rows = table_rows(prog, f, it.args[0])
+            if rows is None:
+                return None
+            if fn == 'reversed':
+                return list(reversed(rows))
+            if fn == 'enumerate':
+                return list(enumerate(rows))
+            return rows
+        if isinstance(it.func, ast.Attribute) and not it.args and \
+                it.func.attr in ('items', 'keys', 'values'):
+            d = cval(prog, f, it.func.value, {})
+            if isinstance(d, dict):
+                return list(getattr(d, it.func.attr)())
+        return None
+    v = cval(prog, f, it, {})
+    if isinstance(v, dict):
+        return list(v)
+    if isinstance(v, (list, tuple)):
+        return list(v)
+    return None
+
+
+def bind_row(target, value, env):
+    """bind the constants of one table row to the names of a loop target"""
+    if isinstance(target, ast.Name):
+        env[target.id] = value
+        return True
+    if isinstance(target, (ast.Tuple, ast.List)) and \
+            isinstance(value, (list, tuple)) and \
+            len(value) == len(target.elts):
+        return all(bind_row(t, v, env) for t, v in zip(target.elts, value))
+    return False
+
+
+class TokEntry:
+    """one entry of the short-form dispatch: the test `tok in var` (cfg node,
+    label of the edge taken on a match), and for an entry of a table loop the
+    loop head, the row number and the constants the row binds"""
+
+    def __init__(self, tok, var, node, match, loop=None, row=None, env=None):
+        self.tok, self.var, self.node, self.match = tok, var, node, match
+        self.loop, self.row, self.env = loop, row, env or {}
+        self.miss = 'F' if match == 'T' else 'T'
+
+
+def token_entries(prog, f, g):
+    """entries of the ordered dispatch by substring containment in f: tests
+    `<token> in <name>` / `<token> not in <name>` whose token is a string
+    constant, or a constant of each row of an enclosing loop over a table"""
+    out = []
+    for n in g.nodes:
+        a = n.ast
+        if n.kind != 'test' or not isinstance(a, ast.Compare) or \
+                len(a.ops) != 1 or not isinstance(a.ops[0], (ast.In, ast.NotIn)) \
+                or not isinstance(a.comparators[0], ast.Name):
+            continue
+        match = 'T' if isinstance(a.ops[0], ast.In) else 'F'
+        var = a.comparators[0].id
+        if cval(prog, f, a.comparators[0], {}) is not UNKNOWN:
+            continue          # membership in a constant, not a substring test
+        if isinstance(a.left, ast.Constant):
+            if isinstance(a.left.value, str):
+                out.append(TokEntry(a.left.value, var, n, match))
+            continue
+        for h in reversed(n.loops):
+            la = g.loop_ast[h]
+            if not isinstance(la, ast.For) or not (
+                    set(stores_in_target(la.target)) &
+                    {x.id for x in walk(a.left) if isinstance(x, ast.Name)}):
+                continue
+            rows = table_rows(prog, f, la.iter)
+            if rows is None:
+                # not a loop over a constant table (`for k in sd.keys()`);
+                # without any entry the caller stops the analysis
+                continue
+            ents = []
+            for i, row in enumerate(rows):
+                env = {}
+                tok = UNKNOWN
+                if bind_row(la.target, row, env):
+                    tok = cval(prog, f, a.left, env)
+                if not isinstance(tok, str):
+                    ents = None
+                    break
+                ents.append(TokEntry(tok, var, n, match, h, i, env))
+            if ents:
+                out += ents
+            break
+    return out
+
+
+def loop_mode(f, g, ent):
+    """'first' if a match leaves the table loop (break / return: the first
+    matching row decides), 'last' if the loop goes on after a match (a later
+    matching row overrides)"""
+    body = g.loop_body[ent.loop]
+    def ends(label):
+        out = set()
+        todo = [e for e in g.succ[ent.node.id] if e.label == label]
+        seen = set()
+        while todo:
+            e = todo.pop()
+            if e.back and e.dst == ent.loop:
+                out.add('again')
+                continue
+            if e.dst not in body:
+                out.add('exit')
+                continue
+            if e.dst in seen:
+                continue
+            seen.add(e.dst)
+            todo += [x for x in g.succ[e.dst] if x.label != 'exc']
+        return out
+    if ends(ent.miss) != {'again'}:
+        raise AnalysisError(
+            'UNRECOGNISED-IDIOM %s: a row of the operator table which does '
+            'not match does not lead to the next row' % f.where)
+    m = ends(ent.match)
+    if m == {'exit'}:
+        return 'first'
+    if m == {'again'}:
+        return 'last'
+    raise AnalysisError('UNRECOGNISED-IDIOM %s: a matching row of the operator '
+                        'table leaves the loop on some paths only' % f.where)
+
+
+def run_region(prog, f, g, ent, region, start):
+    """abstract run of the statements carried out for a matching entry:
+    ({name: 'B' | 'A' | 'S' | None} - which part of the split string a name
+    holds at the end -, [(split call, separator value)])"""
+    splits = []
+
+    def aval(e, st):
+        if isinstance(e, ast.Name):
+            return st.get(e.id)
+        if isinstance(e, (ast.Tuple, ast.List)):
+            return ('seq', [aval(x, st) for x in e.elts])
+        if isinstance(e, ast.IfExp):
+            env = dict(ent.env)
+            t = cval(prog, f, e.test, env)
+            if t is UNKNOWN:
+                a, b = aval(e.body, st), aval(e.orelse, st)
+                return a if a == b else None
+            return aval(e.body if t else e.orelse, st)
+        if isinstance(e, ast.Subscript):
+            b = aval(e.value, st)
+            i = cval(prog, f, e.slice, ent.env)
+            if isinstance(b, tuple) and b[0] == 'seq' and isinstance(i, int) \
+                    and -len(b[1]) <= i < len(b[1]):
+                return b[1][i]
+            return None
+        if isinstance(e, ast.Call) and isinstance(e.func, ast.Attribute):
+            if e.func.attr in SPLITS and dotted(e.func.value) == ent.var:
+                sep = e.args[0] if e.args else None
+                sepv = cval(prog, f, sep, ent.env) if sep is not None else None
+                splits.append((e, sepv))
+                return ('seq', ['B', 'A'] if SPLITS[e.func.attr] == 2
+                        else ['B', 'S', 'A'])
+            if e.func.attr in KEEP_PART:
+                return aval(e.func.value, st)
+        return None
+
+    def assign(t, v, st):
+        if isinstance(t, ast.Name):
+            st[t.id] = v
+        elif isinstance(t, (ast.Tuple, ast.List)):
+            if isinstance(v, tuple) and v[0] == 'seq' and \
+                    len(v[1]) == len(t.elts):
+                for x, y in zip(t.elts, v[1]):
+                    assign(x, y, st)
+            else:
+                for x in t.elts:
+                    assign(x, None, st)
+
+    finals = []
+    todo = [(start, {})]
+    steps = 0
+    while todo:
+        nid, st = todo.pop()
+        steps += 1
+        if steps > 400:
+            raise AnalysisError('UNRECOGNISED-IDIOM %s: the branch for %r has '
+                                'too many paths' % (f.where, ent.tok))
+        n = g.nodes[nid]
+        st = dict(st)
+        if n.kind == 'stmt' and isinstance(n.ast, ast.Assign):
+            v = aval(n.ast.value, st)
+            for t in n.ast.targets:
+                assign(t, v, st)
+        elif n.kind == 'stmt' and isinstance(n.ast, ast.AnnAssign) and \
+                n.ast.value is not None:
+            assign(n.ast.target, aval(n.ast.value, st), st)
+        elif n.kind == 'stmt' and isinstance(n.ast, ast.AugAssign):
+            assign(n.ast.target, None, st)
+        outs = [e for e in g.succ[nid] if e.label != 'exc' and not e.back
+                and e.dst in region]
+        if n.kind == 'test':
+            t = cval(prog, f, n.ast, ent.env)
+            if t is not UNKNOWN:
+                outs = [e for e in outs if e.label == ('T' if t else 'F')]
+                if not outs and any(
+                        e.label == ('T' if t else 'F') for e in g.succ[nid]):
+                    finals.append(st)
+                    continue
+        if not outs:
+            finals.append(st)
+        for e in outs:
+            todo.append((e.dst, st))
+    names = set()
+    for st in finals:
+        names |= set(st)
+    state = {}
+    for nm in names:
+        vals = {repr(st.get(nm)) for st in finals}
+        v = finals[0].get(nm)
+        state[nm] = v if len(vals) == 1 and v in ('B', 'A', 'S') else None
+    return state, splits
+
+
 def r11_5(prog, rep, rid='R11.5'):
-    rep.rule(rid, 'expand_staging_directives: a redirection token which '
-             'contains another one is tested first; each branch splits at the '
-             'token it tested, `>` forms read source first, `<` forms target '
-             'first; string and dict form expand to the same keys',
+    rep.rule(rid, 'expand_staging_directives: every documented redirection '
+             'token has an entry in the ordered first-match dispatch (if/elif '
+             'chain or loop over an operator table); an entry whose token '
+             'contains another one takes precedence over it; each entry '
+             'splits at its own token, `>` forms read source first, `<` forms '
+             'target first; string and dict form expand to the same keys',
              minimum=16)
     f = prog.function(SD, 'expand_staging_directives')
     rep.saw(f)
     g = cfg_of(f)
     smap = I.stmt_node_map(g)
-    toks = {}
-    for n in g.nodes:
-        if n.kind == 'test' and isinstance(n.ast, ast.Compare) and \
-                len(n.ast.ops) == 1 and isinstance(n.ast.ops[0], ast.In) and \
-                isinstance(n.ast.left, ast.Constant) and \
-                isinstance(n.ast.left.value, str) and \
-                isinstance(n.ast.comparators[0], ast.Name):
-            toks[n.id] = (n.ast.left.value, n.ast.comparators[0].id)
-    if len(toks) < 4:
-        raise AnalysisError('UNRECOGNISED-IDIOM %s: expected four `token in '
-                            'sd` tests, found %d' % (f.where, len(toks)))
+    ents = token_entries(prog, f, g)
+    if not ents:
+        raise AnalysisError('UNRECOGNISED-IDIOM %s: no `token in sd` tests '
+                            'found (neither an if/elif chain nor a loop over '
+                            'a constant operator table)' % f.where)
+    loops = {e.loop for e in ents}
+    if len(loops) > 1 or (None not in loops and
+                          len({e.node.id for e in ents}) > 1):
+        raise AnalysisError('UNRECOGNISED-IDIOM %s: the redirection tokens are '
+                            'tested in more than one loop / partly outside of '
+                            'the operator loop' % f.where)
+    if len({e.var for e in ents}) != 1:
+        raise AnalysisError('UNRECOGNISED-IDIOM %s: the token tests look at '
+                            'different strings %s' % (
+                                f.where, sorted({e.var for e in ents})))
+    table = None not in loops
+    mode = loop_mode(f, g, ents[0]) if table else 'first'
     # names which feed 'source' / 'target' of the expanded dict of the string
     # form: the dict literal that lies in the same branch as the token tests
     dicts = [n for n in walk(f.node) if isinstance(n, ast.Dict) and any(
@@ -1108,7 +1447,7 @@ def r11_5(prog, rep, rid='R11.5'):
         raise AnalysisError('UNRECOGNISED-IDIOM %s: expected two expanded '
                             'directive literals, found %d' % (f.where,
                                                               len(dicts)))
-    tok_nodes = set(toks)
+    tok_nodes = {e.node.id for e in ents}
     str_dict = None
     for d in dicts:
         dn = smap.get(id(d))
@@ -1123,67 +1462,95 @@ def r11_5(prog, rep, rid='R11.5'):
         if isinstance(k, ast.Constant) and k.value in ('source', 'target'):
             for nm in {x.id for x in walk(v) if isinstance(x, ast.Name)}:
                 role[nm] = k.value
-    # (a) subsumption
-    for nid, (tok, var) in sorted(toks.items()):
-        for oid, (otok, ovar) in sorted(toks.items()):
-            if oid == nid or ovar != var or otok == tok or otok not in tok:
+    # (0) every documented token has an entry
+    have = {e.tok for e in ents}
+    for tok in DOC_TOKENS:
+        rep.check(tok in have, rid, f, 'the short form %r has an entry' % tok,
+                  construct='entry %s' % tok,
+                  message='no branch of the short-form dispatch tests for the '
+                  'documented redirection token %r (tokens tested: %s)'
+                  % (tok, sorted(have)), loc=f.loc(ents[0].node.ast),
+                  history="'a %s b' is not split at %r: it is split at a "
+                  "shorter token, or taken as a plain source name" % (tok, tok))
+    # (a) subsumption: an entry whose token is contained in the token of
+    # another entry must not take precedence over it
+    gcache = {}
+    for e in ents:
+        for o in ents:
+            if o is e or o.tok == e.tok or o.tok not in e.tok:
                 continue
-            # `tok in s` implies `otok in s`
-            dead = (oid, 'F') in guards(g, nid)
+            # `e.tok in s` implies `o.tok in s`
+            if table:
+                dead = (o.row < e.row) if mode == 'first' else (o.row > e.row)
+                how = ('the operator table %s lists %r %s %r and the loop %s'
+                       % (short(g.loop_ast[e.loop].iter, 40), o.tok,
+                          'before' if mode == 'first' else 'after', e.tok,
+                          'stops at the first entry contained in the string'
+                          if mode == 'first' else 'goes on after a match, so '
+                          'that the last entry contained in the string wins'))
+            else:
+                if e.node.id not in gcache:
+                    gcache[e.node.id] = guards(g, e.node.id)
+                dead = (o.node.id, o.miss) in gcache[e.node.id]
+                how = ('the test for %r is only reached when %r is not in the '
+                       'string' % (e.tok, o.tok))
             rep.check(not dead, rid, f,
-                      '%r is tested before %r' % (tok, otok),
-                      construct='%s before %s' % (tok, otok),
-                      message='the test for %r is only reached when %r is not '
-                      'in the string, but %r contains %r: the %r branch is '
-                      'dead and such directives are split at %r'
-                      % (tok, otok, tok, otok, tok, otok),
-                      loc=f.loc(g.nodes[nid].ast),
-                      history="'a %s b' is split at %r: the target becomes "
-                      "%r" % (tok, otok, (tok[1:] + ' b')))
+                      '%r is tested before %r' % (e.tok, o.tok),
+                      construct='%s before %s' % (e.tok, o.tok),
+                      message='%s, but every string which contains %r contains '
+                      '%r: the %r entry never decides and such directives are '
+                      'split at %r' % (how, e.tok, o.tok, e.tok, o.tok),
+                      loc=f.loc(e.node.ast),
+                      history="'a %s b' is split at %r: the %s becomes %r"
+                      % (e.tok, o.tok, 'target' if '>' in e.tok else 'source',
+                         (e.tok[len(o.tok):] + ' b')))
     # (b) separator and orientation
-    for nid, (tok, var) in sorted(toks.items()):
-        tdst = [e.dst for e in g.succ[nid] if e.label == 'T']
-        fdst = [e.dst for e in g.succ[nid] if e.label == 'F']
-        region = g.reachable(tdst, no_back=True) - \
-            g.reachable(fdst, no_back=True)
-        split = None
-        for r in region:
-            a = g.nodes[r].ast
-            if g.nodes[r].kind == 'stmt' and isinstance(a, ast.Assign) and \
-                    isinstance(a.value, ast.Call) and \
-                    isinstance(a.value.func, ast.Attribute) and \
-                    a.value.func.attr == 'split' and \
-                    dotted(a.value.func.value) == var:
-                split = a
-        if split is None:
+    for e in ents:
+        nid = e.node.id
+        mdst = [x.dst for x in g.succ[nid] if x.label == e.match]
+        fdst = [x.dst for x in g.succ[nid] if x.label == e.miss]
+        if table:
+            region = g.reachable(mdst, no_back=True) & g.loop_body[e.loop]
+        else:
+            region = g.reachable(mdst, no_back=True) - \
+                g.reachable(fdst, no_back=True)
+        if not mdst or mdst[0] not in region:
+            raise AnalysisError('UNRECOGNISED-IDIOM %s: the %r entry has no '
+                                'branch of its own' % (f.where, e.tok))
+        state, splits = run_region(prog, f, g, e, region, mdst[0])
+        if len(splits) != 1:
             raise AnalysisError('UNRECOGNISED-IDIOM %s: the %r branch does not '
-                                'assign from %s.split(..)' % (f.where, tok,
-                                                              var))
-        sep = split.value.args[0] if split.value.args else None
-        sepv = prog.fold(f.module, sep) if sep is not None else None
-        rep.check(sepv == tok, rid, f, 'the %r branch splits at %r'
-                  % (tok, tok), construct=split,
+                                'split %s exactly once (split / partition)'
+                                % (f.where, e.tok, e.var))
+        split, sepv = splits[0]
+        rep.check(sepv == e.tok, rid, f, 'the %r branch splits at %r'
+                  % (e.tok, e.tok), construct='split %s' % e.tok,
                   message='the branch taken for %r in the directive splits the '
-                  'string at %r' % (tok, sepv), loc=f.loc(split),
+                  'string at %r' % (e.tok, sepv), loc=f.loc(split),
                   history="'a %s b' is split into the wrong number of parts "
-                  "or at the wrong place" % tok)
-        tg = split.targets[0]
-        names = [e.id for e in tg.elts if isinstance(e, ast.Name)] \
-            if isinstance(tg, (ast.Tuple, ast.List)) else []
-        if len(names) != 2 or any(n not in role for n in names):
+                  "or at the wrong place" % e.tok)
+        got = {}
+        for nm, r in role.items():
+            if state.get(nm) in ('B', 'A'):
+                got[r] = state[nm]
+        if set(got) != {'source', 'target'}:
             raise AnalysisError('UNRECOGNISED-IDIOM %s: split result of the %r '
                                 'branch is not bound to the source/target '
-                                'names' % (f.where, tok))
-        want = ['source', 'target'] if '>' in tok else ['target', 'source']
-        rep.check([role[n] for n in names] == want, rid, f,
-                  "'a %s b': %s = a, %s = b" % (tok, want[0], want[1]),
-                  construct='orientation %s' % tok,
+                                'names' % (f.where, e.tok))
+        want = {'source': 'B', 'target': 'A'} if '>' in e.tok else \
+            {'target': 'B', 'source': 'A'}
+        first = 'source' if '>' in e.tok else 'target'
+        rep.check(got == want, rid, f,
+                  "'a %s b': %s = a, %s = b" % (
+                      e.tok, first, 'target' if first == 'source' else 'source'),
+                  construct='orientation %s' % e.tok,
                   message="the %r branch binds the part before the token to "
                   "the %s and the part after it to the %s; documented is "
-                  "'src > tgt' and 'tgt < src'" % (tok, role[names[0]],
-                                                   role[names[1]]),
+                  "'src > tgt' and 'tgt < src'" % (
+                      e.tok, [r for r in got if got[r] == 'B'],
+                      [r for r in got if got[r] == 'A']),
                   loc=f.loc(split),
-                  history="'a %s b' stages in the wrong direction" % tok)
+                  history="'a %s b' stages in the wrong direction" % e.tok)
     # (c) key sets
     def keys(d):
         return sorted(k.value for k in d.keys if isinstance(k, ast.Constant))
@@ -1198,7 +1565,7 @@ def r11_5(prog, rep, rid='R11.5'):
     valid = None
     for n in walk(f.node):
         if isinstance(n, ast.Compare) and len(n.ops) == 1 and \
-                isinstance(n.ops[0], ast.NotIn) and \
+                isinstance(n.ops[0], (ast.NotIn, ast.In)) and \
                 isinstance(n.comparators[0], ast.Name):
             cands = [(a.value, a) for a in walk(f.node)
                      if isinstance(a, ast.Assign) and any(
@@ -1208,7 +1575,8 @@ def r11_5(prog, rep, rid='R11.5'):
             cands.append((n.comparators[0], n))
             for e, at in cands:
                 v = prog.fold(f.module, e)
-                if isinstance(v, (list, tuple)) and valid is None:
+                if isinstance(v, (list, tuple)) and valid is None and \
+                        all(isinstance(x, str) for x in v):
                     valid = (sorted(v), at)
     if valid is None:
         raise AnalysisError('UNRECOGNISED-IDIOM %s: the list of keys which are '
@@ -1898,6 +2266,244 @@ def r11_8(prog, rep, rid='R11.8'):
 
 
 # ------------------------------------------------------------------------------
+# R11.9  a directive which cannot be carried out fails its task: the exception
+#        of the staging operation is not swallowed on the way out of the
+#        per-task handler (for a task whose outcome is DONE)
+#
+def outcome_eval(prog, f, done):
+    """evaluation of test atoms of f for a task whose target_state is DONE:
+    comparisons of task['target_state'] (or a name bound to it) with constants
+    and names bound once to a boolean expression over them; None otherwise"""
+    ts = key_exprs(f.node, 'target_state')
+
+    def ev(atom, depth=0):
+        if ts:
+            v = eval_const_atom(prog, f, atom, ts, done)
+            if v is not None:
+                return v
+        if isinstance(atom, ast.Name) and depth < 3:
+            v = _local_single(f, atom.id)
+            if isinstance(v, (ast.Compare, ast.BoolOp, ast.UnaryOp)):
+                return evaluate_bool(v, lambda a: ev(a, depth + 1))
+        return None
+    return ev
+
+
+def records_failure(prog, s, f, n, failed):
+    """the statement fails the task on the spot: advance(task, FAILED), or -
+    output stagers, where the final state is taken from it - a store of
+    FAILED into the task's target_state"""
+    if n.kind != 'stmt' or n.ast is None:
+        return False
+    for c in I.stmt_calls(n):
+        if I.is_handon(c) and I.handon_state(prog, f, c, s.cls) == failed:
+            return True
+    if s.key == 'output_staging' and isinstance(n.ast, ast.Assign):
+        for t in n.ast.targets:
+            if isinstance(t, ast.Subscript) and \
+                    isinstance(t.slice, ast.Constant) and \
+                    t.slice.value == 'target_state' and \
+                    prog.fold(f.module, n.ast.value, f.cls) == failed:
+                return True
+    return False
+
+
+def swallow_witness(prog, s, f, g, node, dhead, done, failed):
+    """None if an exception raised by cfg node `node` leaves f (or fails the
+    task in f) on every path which is feasible for a task with target_state
+    DONE; else (parent map, last node id, how the path ends)"""
+    starts = [e.dst for e in g.succ[node.id]
+              if e.label == 'exc' and e.dst != g.raise_.id]
+    if not starts:
+        return None
+    pruned = set(pruned_edges(g, outcome_eval(prog, f, done)))
+    parent = {st: None for st in starts}
+    todo = list(starts)
+    while todo:
+        nid = todo.pop(0)
+        n = g.nodes[nid]
+        if nid == g.raise_.id or records_failure(prog, s, f, n, failed):
+            continue
+        if nid == g.exit.id:
+            return parent, nid, 'returns normally'
+        for e in g.succ[nid]:
+            if (nid, e.label) in pruned:
+                continue
+            if e.label == 'exc' and n.kind != 'dispatch' and not (
+                    n.kind == 'stmt' and isinstance(n.ast, ast.Raise)):
+                continue          # some later statement raising by itself
+            if e.back and e.dst in node.loops:
+                if dhead is not None and dhead in node.loops and \
+                        node.loops.index(e.dst) > node.loops.index(dhead):
+                    raise AnalysisError(
+                        'UNRECOGNISED-IDIOM %s: the staging operation `%s` is '
+                        'repeated in a loop of its own after an exception '
+                        '(retry): whether the last failure is raised cannot '
+                        'be decided' % (f.where, short(node.ast, 50)))
+                return parent, nid, ('goes on with the next directive'
+                                     if e.dst == dhead or dhead is None else
+                                     'goes on with the enclosing loop')
+            if e.dst not in parent:
+                parent[e.dst] = (nid, e)
+                todo.append(e.dst)
+    return None
+
+
+def _written_names(g, parent, nid):
+    out = set()
+    while nid is not None:
+        n = g.nodes[nid]
+        if n.kind == 'stmt' and n.ast is not None:
+            if isinstance(n.ast, (ast.Assign, ast.AugAssign, ast.AnnAssign)):
+                tg = n.ast.targets if isinstance(n.ast, ast.Assign) \
+                    else [n.ast.target]
+                for t in tg:
+                    for x in I._flat(t):
+                        r = root_name(x)
+                        if r and r != 'self':
+                            out.add(r)
+            for c in I.stmt_calls(n):
+                if isinstance(c.func, ast.Attribute) and \
+                        c.func.attr in I.MUTATING and not is_neutral(c):
+                    r = root_name(c.func.value)
+                    if r and r != 'self':
+                        out.add(r)
+        nid = parent[nid][0] if parent.get(nid) else None
+    return out
+
+
+def site_findings(prog, s, f, g, node, call, kind, dhead, done, failed,
+                  depth=0):
+    """[(function, call, parent map, last node, how)]: the ways in which an
+    exception of the staging operation `call` (cfg node `node` of f) is
+    swallowed; operations inside a method of the stager which is called for
+    the directive are looked at in that method"""
+    out = []
+    for w in node.withs:
+        for it in w.items:
+            r = prog.resolve(f.module, it.context_expr.func) \
+                if isinstance(it.context_expr, ast.Call) else None
+            if r and r[0] == 'ext' and r[1].endswith('suppress'):
+                raise AnalysisError(
+                    'UNRECOGNISED-IDIOM %s: `%s` lies in `with %s`'
+                    % (f.where, short(call, 40), short(it.context_expr, 40)))
+    if kind == 'self' and depth < 2:
+        callee = prog.resolve_call(f, call, s.cls)
+        if callee is not None and callee.cls is not None:
+            gc = cfg_of(callee)
+            for n2 in gc.nodes:
+                for c2 in I.stmt_calls(n2):
+                    k2 = s.classify(c2, callee)
+                    if isinstance(k2, tuple):
+                        out += site_findings(prog, s, callee, gc, n2, c2,
+                                             k2[0], None, done, failed,
+                                             depth + 1)
+    w = swallow_witness(prog, s, f, g, node, dhead, done, failed)
+    if w is None:
+        return out
+    parent, last, how = w
+    # a failure which is noted and raised later cannot be followed
+    wr = _written_names(g, parent, last)
+    if wr:
+        for r in g.nodes:
+            if (r.kind == 'stmt' and isinstance(r.ast, ast.Raise)) or \
+                    records_failure(prog, s, f, r, failed):
+                for t, lab in guards(g, r.id):
+                    if {x.id for x in walk(g.nodes[t].ast)
+                            if isinstance(x, ast.Name)} & wr:
+                        raise AnalysisError(
+                            'UNRECOGNISED-IDIOM %s: the except clause around '
+                            '`%s` writes %s, which `%s` tests in front of a '
+                            'raise: a deferred failure cannot be decided' % (
+                                f.where, short(call, 40), sorted(wr),
+                                short(g.nodes[t].ast, 40)))
+    out.append((f, g, call, parent, last, how))
+    return out
+
+
+def r11_9(prog, rep, rid='R11.9'):
+    rep.rule(rid, 'an exception raised by the staging operation of a directive '
+             'leaves the per-task handler of the stager (or the task is failed '
+             'there): no except clause around it ends normally for a task '
+             'whose target_state is DONE (one obligation per stager and '
+             'action)', minimum=24)
+    acts   = action_values(prog)
+    done   = prog.const('states.py', 'DONE')
+    failed = prog.const('states.py', 'FAILED')
+    for s in stagers(prog):
+        dloops = s.directive_loops()
+        sites, users = {}, {}
+        for name, value in acts.items():
+            if s.admits(value)[0]:
+                for kind, call, node in s.handles(value)['effects']:
+                    sites[node.id] = (kind, call, node)
+                    users.setdefault(node.id, []).append(name)
+        verdict = {}
+        for nid, (kind, call, node) in sorted(sites.items()):
+            dhead = None
+            for h in node.loops:
+                if s.hg.loop_ast[h] in dloops:
+                    dhead = h
+            verdict[nid] = site_findings(prog, s, s.handler, s.hg, node, call,
+                                         kind, dhead, done, failed)
+        for name, value in acts.items():
+            if not s.admits(value)[0]:
+                rep.ok(rid, s.handler, '%s: %s is not admitted (nothing to '
+                       'show)' % (s.label, name), s.work.loc(s.loop.ast))
+                continue
+            mine = [nid for nid in sorted(sites) if name in users[nid]]
+            if not mine:
+                rep.ok(rid, s.handler, '%s: %s reaches no staging operation '
+                       '(R11.1 reports that)' % (s.label, name),
+                       s.handler.loc())
+                continue
+            bad = [x for nid in mine for x in verdict[nid]]
+            if not bad:
+                rep.ok(rid, s.handler, '%s: an exception of the staging '
+                       'operation of a %s directive (%s) leaves %s: no except '
+                       'clause around it, or every except path re-raises, '
+                       'fails the task, or is taken only for a task which is '
+                       'not DONE' % (s.label, name, ', '.join(
+                           short(sites[nid][1].func, 50) for nid in mine),
+                           s.handler.qual), s.handler.loc(sites[mine[0]][1]))
+            for f, g, call, parent, last, how in bad:
+                names = sorted({n for nid in mine for n in users[nid]
+                                if any(x[2] is call for x in verdict[nid])}
+                               or {name})
+                lits = literals(g, parent, last)
+                hnode = None
+                nid = last
+                while nid is not None:
+                    if g.nodes[nid].kind == 'handler':
+                        hnode = g.nodes[nid]
+                    nid = parent[nid][0] if parent.get(nid) else None
+                rep.saw(f)
+                rep.bad(rid, f, 'swallowed: %s' % short(call.func, 60),
+                        '%s stager: an exception raised by `%s` - the staging '
+                        'operation of a %s directive - in %s is caught and '
+                        'the except clause %s%s, also for a task whose '
+                        'target_state is DONE: the directive was not carried '
+                        'out, but nothing fails the task; it is handed on as '
+                        'if its data were in place' % (
+                            s.label, short(call, 50), '/'.join(names), f.qual,
+                            how, ' when `%s`' % ' and '.join(lits)
+                            if lits else ''),
+                        f.loc(hnode.ast if hnode is not None else call),
+                        history='a task which %s with %s=[{action: %s, source: '
+                        'a file which does not exist, target: b}]%s: the '
+                        'staging operation raises, the error is dropped and '
+                        'the task %s without the target'
+                        % ('succeeded (target_state DONE)'
+                           if s.key == 'output_staging' else 'is staged in',
+                           s.key, names[0],
+                           ' for which `%s` holds' % ' and '.join(lits)
+                           if lits else '',
+                           'ends DONE' if s.key == 'output_staging'
+                           else 'is executed'),
+                        path=lits)
+
+
+# ------------------------------------------------------------------------------
 # sweep (thorough): every call on a StagingHelper anywhere in the package names
 # an operation the facade has (exact: anything else is an AttributeError)
 #
@@ -1957,8 +2563,11 @@ def run(prog, rep, tier):
         'agent stager together take every action; the helper dispatch is '
         'exhaustive over what it accepts and delegates to the same-named '
         'backend operation; both backends implement every delegated operation '
-        'with a body that has an effect; `>>`/`<<` are tested before `>`/`<`, '
-        'split at the tested token with the documented orientation; string '
+        'with a body that has an effect; the short-form dispatch (if/elif '
+        'chain or loop over a constant operator table, first or last match) '
+        'has an entry for each of `>>` `>` `<<` `<`, no entry is shadowed by '
+        'one whose token it contains, each entry splits at its own token '
+        'with the documented orientation; string '
         'and dict form expand to the same keys; the eight src/tgt context '
         'tables carry every schema from the task entry of that name with the '
         'documented pwd; output stagers skip tasks which are not DONE unless '
@@ -1966,10 +2575,16 @@ def run(prog, rep, tier):
         'without a staging operation only under tests of its action (or the '
         'tarball-name test of TARBALL directives), a branch which raises is a '
         'refusal; the Session getters which return objects of self._cache '
-        'are not changed through a name bound to their result.')
+        'are not changed through a name bound to their result; an exception '
+        'of the staging operation of a directive leaves the per-task handler '
+        '(or the task is failed there) on every except path which is '
+        'feasible for a task whose target_state is DONE.')
     rep.undecided = ('file contents and remote transfers; that the backend '
         'operations do what their names say (cp/mv/ln semantics, SAGA); '
-        'per-task failure isolation is decided by R05.4 (C05).')
+        'that the exception which leaves the per-task handler fails that '
+        'task only is decided by R05.4 (C05); exceptions swallowed inside '
+        'StagingHelper or its backends; retry loops and failures which are '
+        'noted and raised later stop the analysis.')
     rep.assumptions = [
         'the action of a directive is read as sd[\'action\'] (or a local name '
         'bound to it) and compared with constants; tests on anything else are '
@@ -1980,6 +2595,12 @@ def run(prog, rep, tier):
         '(expand_staging_directives) carry the same actions',
         'output directives with action DOWNLOAD/TARBALL are not claimed '
         '(DESIGN R11.2)',
+        'a redirection token is recognised by `<token> in <string>` / `not '
+        'in`; a table loop is a `for` over a foldable constant whose rows '
+        'bind the token',
+        'a handler around a staging operation fails the task by '
+        'advance(task, FAILED) or (output stagers) by storing FAILED into '
+        'target_state; everything else which ends normally drops the error',
     ]
     r11_1(prog, rep)
     r11_1b(prog, rep)
@@ -1991,6 +2612,7 @@ def run(prog, rep, tier):
     r11_6b(prog, rep)
     r11_7(prog, rep)
     r11_8(prog, rep)
+    r11_9(prog, rep)
     if tier == 'thorough':
         r11_4s(prog, rep)
         r11_6b(prog, rep, rid='R11.6s', sweep=True)
@@ -2213,6 +2835,230 @@ _CORPUS = {
 }
 
 SILENT += [dict(name='corpus %s' % k, edits=v) for k, v in sorted(_CORPUS.items())]
+
+# the short-form chain of expand_staging_directives and table driven rewrites
+_CHAIN = ("            if   '>>' in sd: src, tgt = sd.split('>>', 2)\n"
+          "            elif '>'  in sd: src, tgt = sd.split('>' , 2)\n"
+          "            elif '<<' in sd: tgt, src = sd.split('<<', 2)\n"
+          "            elif '<'  in sd: tgt, src = sd.split('<' , 2)\n"
+          "            else           : src, tgt = sd, os.path.basename(ru.Url(sd).path)\n")
+_IMPORT = "from .constants import DEFAULT_ACTION, DEFAULT_FLAGS, DEFAULT_PRIORITY\n"
+
+
+def _op_table(rows):
+    return _IMPORT + "\n_SD_OPERATORS = (%s)\n" % ', '.join(
+        '(%r, %r)' % r for r in rows)
+
+
+# the seed: partition at the first table entry contained in the string
+_LOOP_PARTITION = (
+    "            src, tgt = sd, None\n"
+    "            for op, forward in _SD_OPERATORS:\n"
+    "                if op in sd:\n"
+    "                    lhs, _, rhs = sd.partition(op)\n"
+    "                    src, tgt    = (lhs, rhs) if forward else (rhs, lhs)\n"
+    "                    break\n"
+    "\n"
+    "            if tgt is None:\n"
+    "                tgt = os.path.basename(ru.Url(sd).path)\n")
+# same split as the chain; %s = 'break' or nothing
+_LOOP_SPLIT = (
+    "            src, tgt = sd, None\n"
+    "            for op, forward in _SD_OPERATORS:\n"
+    "                if op in sd:\n"
+    "                    if forward: src, tgt = sd.split(op, 2)\n"
+    "                    else      : tgt, src = sd.split(op, 2)\n"
+    "%s"
+    "\n"
+    "            if tgt is None:\n"
+    "                src, tgt = sd, os.path.basename(ru.Url(sd).path)\n")
+_LOOP_CONTINUE = (
+    "            operators = [('>>', 0), ('>', 0), ('<<', 1), ('<', 1)]\n"
+    "            src, tgt  = sd, None\n"
+    "            for row in operators:\n"
+    "                if row[0] not in sd:\n"
+    "                    continue\n"
+    "                parts = sd.split(row[0], 2)\n"
+    "                src, tgt = parts[row[1]], parts[1 - row[1]]\n"
+    "                break\n"
+    "\n"
+    "            if tgt is None:\n"
+    "                src, tgt = sd, os.path.basename(ru.Url(sd).path)\n")
+
+_RIGHT = (('>>', True), ('>', True), ('<<', False), ('<', False))
+_SEED  = (('>', True), ('>>', True), ('<', False), ('<<', False))
+_LAST  = (('<', False), ('<<', False), ('>', True), ('>>', True))
+
+# the helper calls of the directive loops
+_AO_CALL = ("            self._stager.handle_staging_directive({'source': src,\n"
+            "                                                   'target': tgt,\n"
+            "                                                   'action': action,\n"
+            "                                                   'flags' : flags})\n"
+            "\n\n"
+            "            self._prof.prof('staging_out_stop', uid=uid, msg=did)\n")
+_AO_CALL_I = ("                self._stager.handle_staging_directive({'source': src,\n"
+              "                                                       'target': tgt,\n"
+              "                                                       'action': action,\n"
+              "                                                       'flags' : flags})\n")
+_AO_STOP = "\n\n            self._prof.prof('staging_out_stop', uid=uid, msg=did)\n"
+_AI_CALL = ("            else:\n\n"
+            "                self._stager.handle_staging_directive({'source': src,\n"
+            "                                                       'target': tgt,\n"
+            "                                                       'action': action,\n"
+            "                                                       'flags' : flags})\n")
+_AI_CALL_I = ("                    self._stager.handle_staging_directive({'source': src,\n"
+              "                                                           'target': tgt,\n"
+              "                                                           'action': action,\n"
+              "                                                           'flags' : flags})\n")
+_TO_CALL = "            self._stager.handle_staging_directive(sd)\n            self._prof.prof('staging_in_stop', uid=uid, msg=sd['uid'])\n\n        # all staging is done -- at this point the task is final"
+_AO_LOOP = "        # we can now handle the actionable staging directives\n        for sd in actionables:\n\n            action = sd['action']\n            flags  = sd['flags']\n"
+_AO_DEF  = "    # --------------------------------------------------------------------------\n    #\n    def _handle_task_staging(self, task, actionables):\n"
+
+MUTATIONS += [
+    dict(name='R11.5 seed C11-c: operator table lists > before >> and < before <<', rules=('R11.5',), edits=[
+        (SD, _IMPORT, _op_table(_SEED)), (SD, _CHAIN, _LOOP_PARTITION)]),
+    dict(name='R11.5 operator table in chain order, but the loop goes on after a match', rules=('R11.5',), edits=[
+        (SD, _IMPORT, _op_table(_RIGHT)), (SD, _CHAIN, _LOOP_SPLIT % '')],
+         note="'a >> b': the later '>' row overrides the '>>' row"),
+    dict(name='R11.5 local operator list with > first, early-continue form', rules=('R11.5',), edits=[
+        (SD, _CHAIN, _LOOP_CONTINUE.replace("[('>>', 0), ('>', 0),", "[('>', 0), ('>>', 0),"))]),
+    dict(name='R11.5 operator table reads << forward', rules=('R11.5',), edits=[
+        (SD, _IMPORT, _op_table((('>>', True), ('>', True), ('<<', True), ('<', False)))),
+        (SD, _CHAIN, _LOOP_PARTITION)]),
+    dict(name='R11.5 chain without an entry for <<', rules=('R11.5',), edits=[
+        (SD, "            elif '<<' in sd: tgt, src = sd.split('<<', 2)\n", "")]),
+    dict(name='R11.5 operator table without >>', rules=('R11.5',), edits=[
+        (SD, _IMPORT, _op_table((('>', True), ('<<', False), ('<', False)))),
+        (SD, _CHAIN, _LOOP_PARTITION)]),
+    dict(name='R11.9 seed C11-d: failed output directive skipped for every stage_on_error task', rules=('R11.9',), edits=[
+        (_AO, _AO_CALL,
+              "            try:\n" + _AO_CALL_I +
+              "            except Exception:\n"
+              "                if not task['description'].get('stage_on_error'):\n"
+              "                    raise\n"
+              "                self._log.warn('%s: skip staging of %s (%s)', uid, src, did)\n"
+              "                self._prof.prof('staging_out_skip', uid=uid, msg=did)\n"
+              "                continue\n" + _AO_STOP)]),
+    dict(name='R11.9 agent input: a directive which fails is logged and the loop goes on', rules=('R11.9',), edits=[
+        (_AI, _AI_CALL,
+              "            else:\n\n                try:\n" + _AI_CALL_I +
+              "                except Exception as e:\n"
+              "                    self._log.error('staging of %s failed: %s', did, e)\n")]),
+    dict(name='R11.9 client output: OSError of the transfer ignored', rules=('R11.9',), edits=[
+        (_TO, _TO_CALL,
+              "            try:\n                self._stager.handle_staging_directive(sd)\n"
+              "            except OSError:\n                pass\n"
+              "            self._prof.prof('staging_in_stop', uid=uid, msg=sd['uid'])\n\n"
+              "        # all staging is done -- at this point the task is final")]),
+    dict(name='R11.9 agent output: tolerance guarded by the wrong outcome (task DONE)', rules=('R11.9',), edits=[
+        (_AO, _AO_CALL,
+              "            try:\n" + _AO_CALL_I +
+              "            except Exception:\n"
+              "                if task['target_state'] != rps.DONE:\n"
+              "                    raise\n"
+              "                self._log.warn('%s: skip staging of %s (%s)', uid, src, did)\n"
+              "                continue\n" + _AO_STOP)]),
+    dict(name='R11.9 agent output: helper call moved into a method which swallows the error', rules=('R11.9',), edits=[
+        (_AO, _AO_CALL,
+              "            self._stage_one({'source': src,\n"
+              "                             'target': tgt,\n"
+              "                             'action': action,\n"
+              "                             'flags' : flags})\n" + _AO_STOP),
+        (_AO, _AO_DEF,
+              "    # --------------------------------------------------------------------------\n    #\n"
+              "    def _stage_one(self, sd):\n"
+              "        try:\n"
+              "            self._stager.handle_staging_directive(sd)\n"
+              "        except Exception:\n"
+              "            self._log.exception('staging failed: %s', sd)\n\n\n" + _AO_DEF)]),
+]
+
+
+SILENT += [
+    dict(name='short forms through an operator table in chain order, first match', edits=[
+        (SD, _IMPORT, _op_table(_RIGHT)), (SD, _CHAIN, _LOOP_SPLIT % '                    break\n')]),
+    dict(name='seed C11-c repaired: partition at the first entry of a table in chain order', edits=[
+        (SD, _IMPORT, _op_table(_RIGHT)), (SD, _CHAIN, _LOOP_PARTITION)]),
+    dict(name='short forms through an operator table, last match wins, short tokens first', edits=[
+        (SD, _IMPORT, _op_table(_LAST)), (SD, _CHAIN, _LOOP_SPLIT % '')]),
+    dict(name='short forms through a local operator list, early-continue form, indexed parts', edits=[
+        (SD, _CHAIN, _LOOP_CONTINUE)]),
+    dict(name='short forms through a reversed operator table', edits=[
+        (SD, _IMPORT, _op_table(tuple(reversed(_RIGHT)))),
+        (SD, _CHAIN, (_LOOP_SPLIT % '                    break\n').replace(
+            'in _SD_OPERATORS:', 'in reversed(_SD_OPERATORS):'))]),
+    dict(name='short form chain as nested if / else with negated tests', edits=[
+        (SD, _CHAIN,
+         "            if '>>' not in sd:\n"
+         "                if '>' in sd:\n"
+         "                    src, tgt = sd.split('>' , 2)\n"
+         "                elif not '<<' in sd:\n"
+         "                    if '<' in sd: tgt, src = sd.split('<' , 2)\n"
+         "                    else        : src, tgt = sd, os.path.basename(ru.Url(sd).path)\n"
+         "                else:\n"
+         "                    tgt, src = sd.split('<<', 2)\n"
+         "            else:\n"
+         "                src, tgt = sd.split('>>', 2)\n")]),
+    dict(name='valid key test of dict directives in early-continue form', edits=[
+        (SD, "                if k not in valid_keys:\n                    raise ValueError('\"%s\" is invalid on staging directive' % k)\n",
+             "                if k in valid_keys:\n                    continue\n                raise ValueError('\"%s\" is invalid on staging directive' % k)\n")]),
+    dict(name='agent output: staging error logged and raised again', edits=[
+        (_AO, _AO_CALL,
+              "            try:\n" + _AO_CALL_I +
+              "            except Exception as e:\n"
+              "                self._log.error('%s: staging of %s failed: %s', uid, did, e)\n"
+              "                raise\n" + _AO_STOP)]),
+    dict(name='agent output: stop event profiled in a finally clause', edits=[
+        (_AO, _AO_CALL,
+              "            try:\n" + _AO_CALL_I +
+              "            finally:\n"
+              "                self._prof.prof('staging_out_stop', uid=uid, msg=did)\n")]),
+    dict(name='seed C11-d repaired: failed directives tolerated only for tasks which are not DONE', edits=[
+        (_AO, _AO_CALL,
+              "            try:\n" + _AO_CALL_I +
+              "            except Exception:\n"
+              "                if task['target_state'] == rps.DONE or \\\n"
+              "                        not task['description'].get('stage_on_error'):\n"
+              "                    raise\n"
+              "                self._log.warn('%s: skip staging of %s (%s)', uid, src, did)\n"
+              "                self._prof.prof('staging_out_skip', uid=uid, msg=did)\n"
+              "                continue\n" + _AO_STOP)]),
+    dict(name='seed C11-d repaired, outcome test hoisted in front of the directive loop', edits=[
+        (_AO, _AO_LOOP,
+              "        tolerant = task['target_state'] != rps.DONE and \\\n"
+              "                   task['description'].get('stage_on_error')\n\n" + _AO_LOOP),
+        (_AO, _AO_CALL,
+              "            try:\n" + _AO_CALL_I +
+              "            except Exception:\n"
+              "                if tolerant:\n"
+              "                    self._log.warn('%s: skip staging of %s (%s)', uid, src, did)\n"
+              "                    continue\n"
+              "                raise\n" + _AO_STOP)]),
+    dict(name='agent output: failing directive fails the task in the handler', edits=[
+        (_AO, _AO_CALL,
+              "            try:\n" + _AO_CALL_I +
+              "            except Exception as e:\n"
+              "                task['exception'] = repr(e)\n"
+              "                self.advance(task, rps.FAILED, publish=True, push=False)\n"
+              "                return\n" + _AO_STOP)]),
+    dict(name='agent output: helper call moved into a method which logs and re-raises', edits=[
+        (_AO, _AO_CALL,
+              "            self._stage_one({'source': src,\n"
+              "                             'target': tgt,\n"
+              "                             'action': action,\n"
+              "                             'flags' : flags})\n" + _AO_STOP),
+        (_AO, _AO_DEF,
+              "    # --------------------------------------------------------------------------\n    #\n"
+              "    def _stage_one(self, sd):\n"
+              "        try:\n"
+              "            self._stager.handle_staging_directive(sd)\n"
+              "        except Exception:\n"
+              "            self._log.exception('staging failed: %s', sd)\n"
+              "            raise\n\n\n" + _AO_DEF)]),
+    dict(name='client output: directive loop with renamed loop variable, stop event first computed', edits=[
+        (_TO, "        for sd in actionables:\n            self._prof.prof('staging_in_start', uid=uid, msg=sd['uid'])\n            self._stager.handle_staging_directive(sd)\n            self._prof.prof('staging_in_stop', uid=uid, msg=sd['uid'])\n",
+              "        for directive in actionables:\n            did = directive['uid']\n            self._prof.prof('staging_in_start', uid=uid, msg=did)\n            self._stager.handle_staging_directive(directive)\n            self._prof.prof('staging_in_stop', uid=uid, msg=did)\n")]),
+]
 
 MUTATIONS += [
     dict(name='R11.5 corpus C11-r1, extracted short form splits << at <', rules=('R11.5',), edits=_CORPUS['C11-r1'] + [
